@@ -256,7 +256,13 @@ func RotateToVector(a, b v3.Vec) M44 {
 	// general case
 	// See:	https://math.stackexchange.com/questions/180418/calculate-rotation-matrix-to-align-vector-a-to-vector-b-in-3d
 	v := a.Cross(b)
-	k := 1 / (1 + a.Dot(b))
+	c := a.Dot(b)
+	k := 1 / (1 + c)
+	if c < 0 {
+		// 1 + c cancels (to zero) when the vectors are nearly opposite.
+		// Use the equivalent (1 - c) / sin^2: |v| is the sine of the angle.
+		k = (1 - c) / v.Length2()
+	}
 	vx := M33{0, -v.Z, v.Y, v.Z, 0, -v.X, -v.Y, v.X, 0}
 	r := Identity2d().Add(vx).Add(vx.Mul(vx).MulScalar(k))
 	return M44{
